@@ -258,6 +258,32 @@ def flw10_paths_from_sanitised_parts(ctx):
                             good = False
                     lits.append((cb, s, good, detail))
     ctx.require(lits, 'FLW-10: subpartition() builds no SubpartitionMetadata')
+    # the name that is tested, the name that is hashed and the name recorded as last_column of
+    # the entry are one and the same value (per file), not state captured from outside
+    for cb in [S] + P.closures_of(S):
+        cb.parse()
+        safe = calls_matching(cb, lambda n: n.endswith('is_filesystem_safe'))
+        upd = calls_matching(cb, lambda n: n.endswith('::update'))
+        if not safe or not upd:
+            continue
+        du = DefUse(cb)
+        ax = du.origins(base_local(safe[0][1].args[0]))['args']
+        ay = du.origins(base_local(upd[0][1].args[1]))['args']
+        az = None
+        for bid, blk in cb.blocks.items():
+            for s_ in blk.stmts:
+                if s_.kind == 'assign' and re.match(r'^disk_store::meta_store::SubpartitionMetadata \{', s_.rhs):
+                    m = re.search(r'last_column: ((?:move|copy) _\d+)', s_.rhs)
+                    if m:
+                        az = du.origins(base_local(m.group(1)))['args']
+        elem = {n for (n, _t) in cb.args[1:]}
+        ctx.check('FLW-10', '%s|hashed-name-is-tested-name' % cb.name,
+                  bool(ax & elem) and ay == ax and (az is None or az == ax),
+                  'is_filesystem_safe tests a value from %s, the digest is computed over a value from '
+                  '%s, last_column comes from %s (parameters of the per-file closure: %s; anything '
+                  'else is captured state shared by all files of the partition)'
+                  % (sorted(ax), sorted(ay), sorted(az) if az is not None else '-', sorted(elem)),
+                  where(upd[0][1]))
     for cb, s, good, detail in lits:
         ctx.check('FLW-10', '%s|subpartition_key-source' % cb.name, good and bool(detail),
                   'subpartition_key comes from %s' % sorted(set(detail)), where(s))
